@@ -138,6 +138,17 @@ fn search(
 /// with real time and with the order of transactions inside one match call) is explained by the
 /// per-order machine and ends in the listed state.
 pub fn per_order_linearizable(ex: &Execution, st: &mut LinStats) -> Vec<String> {
+    per_order_lin_impl(ex, st, false)
+}
+
+/// The same search restricted to the orders with an acknowledged cancel or price move (C13: what
+/// the acknowledgement handed back, and every fill of that order, must fit one ordering in which
+/// nothing happens to the order after the cancel).
+pub fn cancelled_orders_linearizable(ex: &Execution, st: &mut LinStats) -> Vec<String> {
+    per_order_lin_impl(ex, st, true)
+}
+
+fn per_order_lin_impl(ex: &Execution, st: &mut LinStats, cancelled_only: bool) -> Vec<String> {
     let mut out = Vec::new();
     let mut start: HashMap<u128, Order> = HashMap::new();
     for o in &ex.prog.preload {
@@ -200,6 +211,9 @@ pub fn per_order_linearizable(ex: &Execution, st: &mut LinStats) -> Vec<String> 
     for k in ids {
         let fin = ex.final_obs.find(k).copied();
         let e = evs.remove(&k).unwrap_or_default();
+        if cancelled_only && !e.iter().any(|x| matches!(x.k, EvK::Cancel { .. })) {
+            continue;
+        }
         let s0 = match start.get(&k) {
             Some(o) => *o,
             None => {
